@@ -9,6 +9,7 @@ module), spec/Config.tla (node start-up: refuse whole / write once before the fi
   code -> spec : recorded node start-ups and seeded random configurations (random numbers, several
                  entries per parameter, 2-4 modules, two files) are validated by TLC (Trace_Config).
 """
+import hashlib
 import io
 import json
 import os
@@ -245,18 +246,108 @@ def run_module(entries):
     """module level: the real constructor on the dict built by the real Mod()/Param()"""
     mods = _classes()
     srv = ServerStub()
+    cfgdict = _mod_cfgdict(entries)
+    before = _digest(cfgdict)
+    ev = {'ev': 'module', 'cfg': entries}
     try:
-        cfgdict = _mod_cfgdict(entries)
-        obj = mods.CfgMod('m', Log(), cfgdict, srv)
+        obj = mods.CfgMod('m', Log(), dict(cfgdict), srv)     # (SecNode hands a shallow copy to the constructor)
+        ev.update(out='accepted', st=project(obj, entries))
     except Exception as e:
-        return {'ev': 'module', 'cfg': entries, 'out': 'rejected', 'st': {}, 'error': f'{type(e).__name__}: {e}'[:300]}
-    return {'ev': 'module', 'cfg': entries, 'out': 'accepted', 'st': project(obj, entries)}
+        ev.update(out='rejected', st={}, error=f'{type(e).__name__}: {e}'[:300])
+    after = _digest(cfgdict)
+    ev['cfgb'] = hashlib.sha1(before.encode()).hexdigest()[:12]
+    ev['cfga'] = hashlib.sha1(after.encode()).hexdigest()[:12]
+    if before != after:
+        ev['config_before'], ev['config_after'] = before[:1500], after[:1500]
+    return ev
 
 
 # ------------------------------------------------------------------ node level
 
-def run_node(files):
-    """files: [[{'m': name, 'cfg': [entries]}, ...], ...] -> trace (list of events)"""
+def _file_source(i, f, share):
+    """text of one *_cfg.py; share: a Param(...) used by several modules of the file is ONE object"""
+    lines = ["Node('equipment%d', 'node from file %d', 'tcp://0')\n" % (i + 1, i + 1)]
+    mods = [_mod_source(mod['m'], mod['cfg']) for mod in f]
+    if share:
+        exprs = re.findall(r'Param\([^()]*\)', ''.join(mods))
+        for k, ex in enumerate(sorted({e for e in exprs if exprs.count(e) > 1})):
+            lines.append('shared%d = %s\n' % (k, ex))
+            mods = [m.replace(ex, 'shared%d' % k) for m in mods]
+    return ''.join(lines + mods)
+
+
+def _digest(cfg):
+    """canonical text of a loaded configuration (frame clause: processing must not change it)"""
+    return json.dumps(cfg, sort_keys=True, default=repr)
+
+
+def _observe_run(srv, files, trace):
+    """one real Server._processCfg() on srv: append the observed events"""
+    before = _digest(srv.module_cfg)
+    try:
+        srv._processCfg()
+        outcome = 'running'
+    except SystemExit:
+        outcome = 'refused'
+    except Exception as e:      # an observation, not a harness failure
+        outcome = 'crashed: %s' % type(e).__name__
+    sec = srv.secnode
+    mods = {m: o for m, o in sec.modules.items() if o is not None}
+    registered = sorted(sec.modules)
+    started = [m for m, o in mods.items() if o.startModuleDone]
+    if outcome == 'refused' and started:
+        # evidence only: give the poll threads that were started a moment to touch the hardware
+        t0 = time.time()
+        while time.time() - t0 < 0.3 and not all(getattr(mods[m], 'hwlog', None) for m in started):
+            time.sleep(0.005)
+    hw = {m: list(getattr(o, 'hwlog', [])) for m, o in mods.items()}
+    try:
+        sec.shutdown_modules()
+    except Exception:           # (a node in a broken state: stop the threads we know of)
+        for o in mods.values():
+            o.stopPollThread()
+    errors = list(sec.errors)
+    merged = {}
+    for f in files:
+        for mod in f:
+            merged.setdefault(mod['m'], mod['cfg'])
+    for m in srv.module_cfg:
+        if m in mods:
+            trace.append({'ev': 'create', 'm': m, 'out': 'accepted', 'st': project(mods[m], merged[m], node=True),
+                          'orig': mods[m].original_id is not None})
+        else:
+            trace.append({'ev': 'create', 'm': m, 'out': 'rejected', 'st': {}, 'orig': False})
+    if outcome == 'refused':
+        named = sorted({m for line in errors for m in re.findall(r'\bm\d+\b', line)})
+        trace.append({'ev': 'refuse', 'reported': named, 'registered': registered, 'started': sorted(started),
+                      'hw_before_exit': {m: [list(map(str, e)) for e in hw[m] if e[0] == 'write'] for m in started},
+                      'errors': errors[:12]})
+    elif outcome != 'running':
+        trace.append({'ev': 'crash', 'error': outcome, 'registered': registered})
+    else:
+        for m in started:
+            trace.append({'ev': 'start', 'm': m})
+        for m in started:
+            seen_poll = False
+            for e in hw[m]:
+                if e[0] == 'write':
+                    trace.append({'ev': 'write', 'm': m, 'p': e[1], 'v': _tick(e[2])})
+                elif not seen_poll:
+                    seen_poll = True
+                    trace.append({'ev': 'poll', 'm': m})
+        trace.append({'ev': 'running', 'registered': registered})
+    after = _digest(srv.module_cfg)
+    ev = {'ev': 'cfgkept', 'before': hashlib.sha1(before.encode()).hexdigest()[:12],
+          'after': hashlib.sha1(after.encode()).hexdigest()[:12]}
+    if before != after:
+        ev['config_before'], ev['config_after'] = before[:1500], after[:1500]
+    trace.append(ev)
+
+
+def run_node(files, mode='plain'):
+    """files: [[{'m': name, 'cfg': [entries]}, ...], ...] -> trace (list of events)
+    mode 'share': a Param(...) used by several modules of a file is one object;
+    mode 'twice': the loaded configuration is processed a second time (what Server.run does after restart())"""
     _classes()
     import signal
     from frappy.lib import generalConfig
@@ -266,77 +357,28 @@ def run_node(files):
     for i, f in enumerate(files):
         p = os.path.join(d, 'node%d_cfg.py' % i)
         with open(p, 'w') as fh:
-            fh.write("Node('equipment%d', 'node from file %d', 'tcp://0')\n" % (i + 1, i + 1))
-            for mod in f:
-                fh.write(_mod_source(mod['m'], mod['cfg']))
+            fh.write(_file_source(i, f, mode == 'share'))
         paths.append(p)
     saved_cfg = dict(generalConfig._config or {})
     generalConfig.testinit(confdir=[Path(d)], piddir=Path(d), **{k: v for k, v in saved_cfg.items() if k not in ('confdir', 'piddir')})
     saved_signal, saved_err = signal.signal, sys.stderr
     signal.signal = lambda *a: None
     sys.stderr = io.StringIO()
-    log = Log()
-    trace = [{'ev': 'node', 'files': files}]
-    srv = None
+    trace = []
     try:
-        srv = Server('verifnode', log, cfgfiles=paths)
-        try:
-            srv._processCfg()
-            outcome = 'running'
-        except SystemExit:
-            outcome = 'refused'
-        except Exception as e:      # an observation, not a harness failure
-            outcome = 'crashed: %s' % type(e).__name__
-        sec = srv.secnode
-        mods = {m: o for m, o in sec.modules.items() if o is not None}
-        registered = sorted(sec.modules)
-        started = [m for m, o in mods.items() if o.startModuleDone]
-        if outcome == 'refused' and started:
-            # evidence only: give the poll threads that were started a moment to touch the hardware
-            t0 = time.time()
-            while time.time() - t0 < 0.3 and not all(getattr(mods[m], 'hwlog', None) for m in started):
-                time.sleep(0.005)
-        hw = {m: list(getattr(o, 'hwlog', [])) for m, o in mods.items()}
-        try:
-            sec.shutdown_modules()
-        except Exception:           # (a node in a broken state: stop the threads we know of)
-            for o in mods.values():
-                o.stopPollThread()
-        errors = list(sec.errors)
-        merged = {}
-        for f in files:
-            for mod in f:
-                merged.setdefault(mod['m'], mod['cfg'])
-        for m in srv.module_cfg:
-            if m in mods:
-                trace.append({'ev': 'create', 'm': m, 'out': 'accepted', 'st': project(mods[m], merged[m], node=True),
-                              'orig': mods[m].original_id is not None})
-            else:
-                trace.append({'ev': 'create', 'm': m, 'out': 'rejected', 'st': {}, 'orig': False})
-        if outcome == 'refused':
-            named = sorted({m for line in errors for m in re.findall(r'\bm\d+\b', line)})
-            trace.append({'ev': 'refuse', 'reported': named, 'registered': registered, 'started': sorted(started),
-                          'hw_before_exit': {m: [list(map(str, e)) for e in hw[m] if e[0] == 'write'] for m in started},
-                          'errors': errors[:12]})
-        elif outcome != 'running':
-            trace.append({'ev': 'crash', 'error': outcome, 'registered': registered})
-        else:
-            for m in started:
-                trace.append({'ev': 'start', 'm': m})
-            for m in started:
-                seen_poll = False
-                for e in hw[m]:
-                    if e[0] == 'write':
-                        trace.append({'ev': 'write', 'm': m, 'p': e[1], 'v': _tick(e[2])})
-                    elif not seen_poll:
-                        seen_poll = True
-                        trace.append({'ev': 'poll', 'm': m})
-            trace.append({'ev': 'running', 'registered': registered})
+        srv = Server('verifnode', Log(), cfgfiles=paths)
+        for k in range(2 if mode == 'twice' else 1):
+            trace.append({'ev': 'node', 'files': files, 'mode': mode, 'run': k + 1})
+            _observe_run(srv, files, trace)
     finally:
         signal.signal, sys.stderr = saved_signal, saved_err
         generalConfig.testinit(**saved_cfg)
         shutil.rmtree(d, ignore_errors=True)
     return trace
+
+
+def _run_node_case(case):
+    return run_node(case['files'], case.get('mode', 'plain'))
 
 
 # ------------------------------------------------------------------ random configurations (code -> spec)
@@ -427,7 +469,13 @@ def _random_node_trace(seed):
         if rnd.random() < 0.5:
             second = [{'m': 'm1', 'cfg': random_cfg(rnd, 0.3)}] + second
         files = [mods[:cut], second]
-    return run_node(files)
+    if rnd.random() < 0.4:      # several modules configured from ONE Param object
+        src = next((e for e in mods[0]['cfg'] if e['par'] == 'a' and e['form'] == 'P'), None)
+        if src is not None:
+            for mod in mods[1:]:
+                mod['cfg'] = [e for e in mod['cfg'] if e['par'] != 'a'] + \
+                    [dict(e) for e in mods[0]['cfg'] if e['par'] == 'a']
+    return run_node(files, rnd.choice(['plain', 'share', 'share', 'twice']))
 
 
 # ------------------------------------------------------------------ check
@@ -438,6 +486,8 @@ def _cmp_module(beh, got):
         return ('bad config accepted: ' + beh['why'] if got['out'] == 'accepted'
                 else 'healthy configuration rejected'), {'allowed': beh['allowed'], 'observed': got['out'],
                                                          'error': got.get('error')}
+    if got['cfgb'] != got['cfga']:
+        return 'processing changed the configuration', {'before': got.get('config_before'), 'after': got.get('config_after')}
     if got['out'] != 'accepted':
         return None
     exp, st = beh['exp'], got['st']
@@ -508,13 +558,14 @@ def run(chk):
     r, nodes = emit_behaviours('Gen_ConfigNode', 'Gen_ConfigNode_quick.cfg' if quick else 'Gen_ConfigNode_thorough.cfg',
                                maximal_only=False, timeout=900)
     chk.add_tlc(r)
-    files = [n['files'] for n in nodes]
-    traces = pool_map(run_node, files)
+    files = [{'files': n['files'], 'mode': n['mode']} for n in nodes]
+    traces = pool_map(_run_node_case, files)
     for n, tr in zip(nodes, traces):
         chk.impl_traces += 1
         chk.case(json.dumps(n['files'], sort_keys=True), True)
         # alpha(gamma(x)) = x: the node saw the modules TLC configured
-        if sorted(e['m'] for e in tr if e['ev'] == 'create') != sorted(n['allowed']):
+        runs = 2 if n['mode'] == 'twice' else 1
+        if sorted(e['m'] for e in tr if e['ev'] == 'create') != sorted(list(n['allowed']) * runs):
             chk.violation({'module': 'Config', 'clause': 'harness: modules seen by the node'}, {'files': n['files']})
     _judge(chk, traces, 'Gen_ConfigNode', files)
     if traces:
@@ -552,13 +603,13 @@ def replay(chk, rep):
     elif isinstance(case, dict) and 'random_node_seed' in case:
         tr = _random_node_trace(case['random_node_seed'])
     else:
-        tr = run_node(case)
+        tr = _run_node_case(case) if isinstance(case, dict) else run_node(case)
     for i, e in enumerate(tr, 1):
         if e['ev'] == 'node':
+            print('--- run', e.get('run'), 'mode', e.get('mode'))
             for k, f in enumerate(e['files']):
                 print('file', k + 1)
-                for m in f:
-                    print('   ', _mod_source(m['m'], m['cfg']).strip())
+                print('    ' + _file_source(k, f, e.get('mode') == 'share').replace('\n', '\n    ').rstrip())
         elif e['ev'] == 'module':
             print(i, 'module', _mod_source('m', e['cfg']).strip(), '->', e['out'], e.get('error', ''))
         else:
